@@ -534,7 +534,11 @@ class RemoteWorker(Worker, metaclass=RemoteWorkerMeta):
             self._ctrl_thread_rem.start()
             self._startup_sync.wait()
 
-            # Receiving runtime info is a signal for us that everything is ok
+            # Receiving runtime info is a signal for us that everything is ok - a backend which died before reporting
+            # (e.g. its client is already gone) will never send it, do not wait for it forever
+            ready = mp.connection.wait([self._comms.parent_end, self._child.sentinel])
+            if self._comms.parent_end not in ready:
+                raise ConnectionClosedError()
             runtime_info = self._comms.parent_end.recv()
             self._host, self._pid, self._tid, self._ident = runtime_info
             send_msg(self._ctrl_sock, runtime_info, comment='ctrl: runtime info')
